@@ -233,7 +233,7 @@ func dispatchDesc(c *Ctx, in ssa.Instruction) string {
 
 // mainLoop: the loop of fn that contains a call to (*parseState).pop.
 func (c *Ctx) loopContaining(fn *ssa.Function, p InstrPred) *Loop {
-	loops := loopsOf(fn)
+	loops := c.loopsDeep(fn)
 	var best *Loop
 	for _, in := range c.instrs(fn, p) {
 		for _, l := range loops {
@@ -317,8 +317,8 @@ func (c *Ctx) errBlocks(r *Report, pa *ssa.Function, facts *Facts) {
 
 	// every error-producing call in the loop
 	n := 0
-	for _, b := range pa.Blocks {
-		if !loop.Blocks[b] {
+	for _, b := range c.blocks(pa) {
+		if !c.inLoop(loop, b) {
 			continue
 		}
 		for _, in := range b.Instrs {
@@ -354,7 +354,7 @@ func (c *Ctx) errBlocks(r *Report, pa *ssa.Function, facts *Facts) {
 			}
 			tested := 0
 			okAll := true
-			for _, bb := range pa.Blocks {
+			for _, bb := range c.blocks(pa) {
 				if len(bb.Instrs) == 0 {
 					continue
 				}
@@ -392,7 +392,7 @@ func (c *Ctx) errBlocks(r *Report, pa *ssa.Function, facts *Facts) {
 				}
 				target := func(x ssa.Instruction) bool {
 					if _, isRet := x.(*ssa.Return); isRet {
-						return true
+						return x.Parent() == pa
 					}
 					xb := x.Block()
 					if x != xb.Instrs[0] {
@@ -418,7 +418,7 @@ func (c *Ctx) errBlocks(r *Report, pa *ssa.Function, facts *Facts) {
 	}
 	// recoveries
 	for _, in := range c.instrs(pa, recov) {
-		if !loop.Blocks[in.Block()] {
+		if !c.inLoop(loop, in.Block()) {
 			continue
 		}
 		ci := in.(ssa.CallInstruction)
